@@ -151,12 +151,12 @@ def type_resolution(kind):
 
 @lemma("C11", params=[(w, k) for w in range(3) for k in range(8)],
        bounds="one task per operation name my.ext.Op / my.ext.Missing / other.ext.Op and outermost kind of the output type; signature output of depth <= 1, input Bool and type argument an opaque leaf "
-              "(quick) / input type of depth 1 (thorough); registries as in type_resolution",
+              "; registries as in type_resolution (thorough: any subset of the type definitions, an unrelated extension or not)",
        opts={"max_paths": 400000, "timeout_s": 3000, "optional_clauses": ["op_resolution_idempotent", "resolved_op_is_the_registry_definition", "type_args_resolved"]})
 def op_resolution(which, out_kind):
     reg, have = registry(op_sig_choice=(which == 0))
     en, on = [("my.ext", "Op"), ("my.ext", "Missing"), ("other.ext", "Op")][which]
-    ti, to = (tys.Bool if P(True, False) else expr("in", 1)), expr("out", 1, out_kind)
+    ti, to = tys.Bool, expr("out", 1, out_kind)
     ta = opaque("arg", 0)
     cu = ops.Custom(on, tys.FunctionType([ti], [to]), "free text", en, [tys.TypeTypeArg(ta), tys.BoundedNatArg(2)])
     r = cu.resolve(reg)
